@@ -9,7 +9,7 @@ or an assumed contract for an external library).
 import ast, itertools, enum, os
 import z3
 from .values import *
-from .loader import Source, FunctionMissing, is_property, is_classmethod
+from .loader import Source, FunctionMissing, is_property, is_classmethod, is_staticmethod
 
 MUTATORS = {"append", "extend", "remove", "pop", "update", "clear", "insert", "setdefault", "sort", "reverse", "popitem", "add", "discard"}
 
@@ -53,13 +53,26 @@ class Frame:
         self.module, self.cls, self.locals, self.fn = module, cls, locals_, fn
 
 
+def _fits(fn, what):
+    """side-car callables are written against the locals of one loop: when they do not fit the loop at hand (renamed / restructured
+    locals) the unit is outside the contract, not a crash"""
+    if fn is None: return None
+    def wrapped(*a, **k):
+        try:
+            return fn(*a, **k)
+        except (KeyError, AttributeError, TypeError, IndexError) as ex:
+            raise Unsupported("the side-car %s does not fit this loop (%s: %s)" % (what, type(ex).__name__, ex))
+    return wrapped
+
+
 class LoopSpec:
     """side-car loop contract, keyed by (function qualname, loop kind, ordinal) - not by the text of the condition.
     inv(env, k) -> z3 Bool;  variant(env) -> z3 Int (optional);  havoc: names -> callable(engine, old) (optional)"""
 
     def __init__(self, name, inv, variant=None, havoc=None, modifies=None, ghost=(), heap_havoc=None):
-        self.name, self.inv, self.variant, self.havoc, self.modifies, self.ghost = name, inv, variant, havoc or {}, modifies, list(ghost)
-        self.heap_havoc = heap_havoc
+        self.name, self.inv, self.variant, self.modifies, self.ghost = name, _fits(inv, "invariant"), _fits(variant, "variant"), modifies, list(ghost)
+        self.havoc = {k_: _fits(v_, "havoc rule") for k_, v_ in (havoc or {}).items()}
+        self.heap_havoc = _fits(heap_havoc, "heap havoc rule")
 
 
 class Engine:
@@ -647,6 +660,8 @@ class Engine:
                     return self._invoke(mod, owner, n, qual, base, [], {})
                 if is_classmethod(n):
                     return BoundMethod(ClassRef(base.cls), owner, n, qual)
+                if is_staticmethod(n):
+                    return FuncRef(mod, n, qual)
                 return BoundMethod(base, owner, n, qual)
             return self.src.class_literal(base.cls, attr)
         if isinstance(base, Opaque):
@@ -658,6 +673,8 @@ class Engine:
                     mod = self.src.module_of_class(owner).name
                     qual = "%s.%s.%s" % (mod, owner, attr)
                     if is_property(n): return self._invoke(mod, owner, n, qual, base, [], {})
+                    if is_staticmethod(n): return FuncRef(mod, n, qual)
+                    if is_classmethod(n): return BoundMethod(ClassRef(base.cls), owner, n, qual)
                     return BoundMethod(base, owner, n, qual)
             raise Unsupported("attribute %s of opaque %s (line %s)" % (attr, base.tag, getattr(node, "lineno", "?")))
         if isinstance(base, ClassRef):
@@ -669,7 +686,7 @@ class Engine:
             if isinstance(n, ast.FunctionDef):
                 qual = "%s.%s.%s" % (mod, owner, attr)
                 if is_classmethod(n): return BoundMethod(base, owner, n, qual)
-                return FuncRef(mod, n, qual)
+                return FuncRef(mod, n, qual)        # plain function or staticmethod reached through the class
             return self.src.class_literal(base.cls, attr)
         if isinstance(base, PhaseConf):
             if attr == "get":
@@ -832,8 +849,15 @@ class Engine:
                     self.assign(g.target, it.elem(j))
                     cs = []
                     for c in g.ifs:
-                        t = self.truth(self.ev(c))
-                        cs.append(z3.BoolVal(t) if isinstance(t, bool) else t)
+                        # the filter is a TERM over the bound index j: it must not fork the path (a decision on j would leak the bound variable)
+                        try:
+                            t = self._pure_cond(c)
+                        except Unsupported:
+                            pos0, npc0 = self.pos, len(self.pc)
+                            t = self.truth(self.ev(c))
+                            if self.pos != pos0 or len(self.pc) != npc0:
+                                raise Unsupported("comprehension filter forks on the element (line %s)" % getattr(c, "lineno", "?"))
+                        cs.append(z3.BoolVal(t) if isinstance(t, bool) else to_z(t))
                     return z3.And(*cs)
                 finally:
                     self.frames.pop()
